@@ -1023,7 +1023,8 @@ def extract_impl(path, header_lit, macro, args, handle, spec, stats, canary):
                 if tm_:
                     header = head_part[:gend] + re.sub(r"\b%s\b" % a, b, head_part[gend:], count=1) + header[fm.start():]
                     break
-    if re.match(r"\s*(pub\s+)?trait\b", header):
+    if re.match(r"\s*(pub(\([^)]*\))?\s+)?trait\b", header):
+        header = re.sub(r"^\s*(pub(\([^)]*\))?\s+)?trait\b", "pub trait", header)   # R2
         gen, trait, selfty, where = "", "", "Self", ""
     else:
         gen, trait, selfty, where = header_generics(header)
